@@ -25,6 +25,7 @@ DOC = {
         "evaluation that follows the last write of the parameters."
     ),
     "rules": {
+        "C13-R6": "every evaluation (scipy's `fun`, the re-evaluation for `cost`, the result datasets) sees expression parameters at their exact fixed point, evaluated on the working copy itself (shared with C12-R2, C12-R4)",
         "C13-R5": "the matrices that are fitted (and whose columns number_of_clps counts) are the reduced ones: relations, then constraints, then the weight applied to the reduced matrix (shared with C02-R2)",
         "C13-R1": "residuals = fun.size, free parameters = x.size, dof = residuals - free - clps, chi2 = sum(fun**2), reduced = chi2/dof, rmse = sqrt(reduced), cost = 1/2 p.p with p re-evaluated at the optimum; per-dataset rmse = sqrt(sum(res**2)/(n_model*n_global)), weighted likewise",
         "C13-R2": "covariance = (V^T[m]^T / s^2[m]) V^T[m] with m = s^2 > eps from the thin SVD of the Jacobian; standard errors = rmse*sqrt(diag) in free-parameter order; non-negative parameters: value*(exp(e)-1) if e < |log value| else |value|",
@@ -312,9 +313,17 @@ def r5(ctx) -> None:
     c02.r2(ctx, rule="C13-R5")
 
 
+def r6(ctx) -> None:
+    """The statistics are computed from one mutually consistent parameter set (shared with C12-R2 and C12-R4)."""
+    from glint.rules import c12
+
+    c12.r2(ctx, rule="C13-R6")
+    c12.r4(ctx, rule="C13-R6")
+
+
 def check(ctx) -> None:
     for g in check.groups:
         g(ctx)
 
 
-check.groups = [r1, r2, r3, r4, r5]
+check.groups = [r1, r2, r3, r4, r5, r6]
